@@ -94,6 +94,24 @@ Definition assign_def_attr (o:oracle) (name:str) (ws:list word) : res aval :=
   else if eqs name (s_ "input_size") || eqs name (s_ "expert_level") then int_from_words o ws
   else Ok (str_from_words ws).
 
+(* "fmt" % 0 : number of argument-consuming conversion specifiers, for formats that use only
+   %% and the plain one-letter conversions; None = outside that subset (flags, widths, mappings,
+   unknown letters, a trailing %) *)
+Fixpoint count_specs (s:str) : option nat :=
+  match s with
+  | [] => Some 0%nat
+  | c :: r =>
+      if Ascii.eqb c "%" then
+        match r with
+        | d :: r' =>
+            if Ascii.eqb d "%" then count_specs r'
+            else if mem d (s_ "disrfgexo") then option_map S (count_specs r')
+            else None
+        | [] => None
+        end
+      else count_specs r
+  end.
+
 Definition assign_scope_attr (o:oracle) (name:str) (ws:list word) : res aval :=
   if mems name [s_ "optional"; s_ "multiple"; s_ "disable_add"; s_ "disable_delete"] then bool_from_words ws
   else if eqs name (s_ "expert_level") then int_from_words o ws
@@ -101,9 +119,11 @@ Definition assign_scope_attr (o:oracle) (name:str) (ws:list word) : res aval :=
     (if is_plain_none ws then Ok ANone else if is_plain_auto ws then Ok AAuto else ask o "C" ws)
   else if eqs name (s_ "sequential_format") then
     match str_from_words ws with
-    | AStr v => if mem "%" v then ask o "F" ws       (* "fmt" % 0 : Python's formatting operator *)
-                else Crash (s_ "TypeError")          (* not all arguments converted *)
-    | AAuto => Crash (s_ "TypeError")                (* Auto % 0 *)
+    | AStr v => match count_specs v with
+                | Some 1%nat => Ok (AStr v)
+                | Some _ => UErr (s_ "BadSequentialFormat") v (first_line ws)
+                | None => UErr (s_ "Unmodelled") (s_ "F") 0 end
+    | AAuto => UErr (s_ "BadSequentialFormat") (s_ "Auto") (first_line ws)   (* Auto % 0 : TypeError, reported *)
     | v => Ok v
     end
   else Ok (str_from_words ws).
@@ -210,8 +230,11 @@ Fixpoint cobj (o:oracle) (fuel:nat) (s:str) (line:nat) (nid:nat) (stop:bool) (st
       if eqs (wv w) f_end then (if stop then nomatch else Ok (rev (flush acc), [], l2, nid))
       else if eqs (wv w) f_on then cobj o f r2 l2 nid stop start prev_line active acc
       else if negb (eqs (wv w) f_off) then E "UnknownPhilDirective" (wv w) (wline w)
-      else let '(r3, l3, _) := sfs (S (length r2)) r2 l2 in
-           cobj o f r3 l3 nid stop start prev_line active acc
+      else let '(r3, l3, fu) := sfs (S (length r2)) r2 l2 in
+           match fu with
+           | Some 0%nat => if stop then nomatch else Ok (rev (flush acc), [], l3, nid)   (* __END__ or end of input *)
+           | _ => cobj o f r3 l3 nid stop start prev_line active acc
+           end
     else if stop && eqs (wv lead) ["}"] then Ok (rev (flush acc), r, l, nid)
     else if eqs (wv lead) ["{"] then E "UnexpectedBrace" (wv lead) (wline lead)
     else
